@@ -60,7 +60,7 @@ func (r *ruleImpl) Execute(ctx heimdall.Context) (rule.Backend, error) {
 		// unescape path
 		request.URL.RawPath = ""
 	case config.EncodedSlashesOff:
-		if strings.Contains(request.URL.RawPath, "%2F") {
+		if containsEncodedSlash(request.URL.RawPath) {
 			return nil, errorchain.NewWithMessage(heimdall.ErrArgument,
 				"path contains encoded slash, which is not allowed")
 		}
@@ -160,7 +160,23 @@ func unescape(value string, handling config.EncodedSlashesHandling) string {
 		return unescaped
 	}
 
-	unescaped, _ := url.PathUnescape(strings.ReplaceAll(value, "%2F", "$$$escaped-slash$$$"))
+	return unescapeExceptSlashes(value)
+}
 
-	return strings.ReplaceAll(unescaped, "$$$escaped-slash$$$", "%2F")
+// containsEncodedSlash reports whether the given raw path contains a percent-encoded slash.
+// Hex digits of percent-encodings are case-insensitive (RFC 3986, section 2.1).
+func containsEncodedSlash(rawPath string) bool {
+	return strings.Contains(rawPath, "%2F") || strings.Contains(rawPath, "%2f")
+}
+
+// unescapeExceptSlashes decodes all percent-encoded octets but the encoded slashes, which are left as received.
+func unescapeExceptSlashes(value string) string {
+	value = strings.ReplaceAll(value, "%2F", "$$$escaped-slash-uc$$$")
+	value = strings.ReplaceAll(value, "%2f", "$$$escaped-slash-lc$$$")
+
+	unescaped, _ := url.PathUnescape(value)
+
+	unescaped = strings.ReplaceAll(unescaped, "$$$escaped-slash-uc$$$", "%2F")
+
+	return strings.ReplaceAll(unescaped, "$$$escaped-slash-lc$$$", "%2f")
 }
